@@ -1,2 +1,3 @@
 import SekaiProofs.Props.C19
 import SekaiProofs.Props.C07
+import SekaiProofs.Props.C08
